@@ -43,7 +43,7 @@ def main(tier):
     gen_ok = not any(o[0].startswith("compile:") for o in broken)
     rng = ck.rng
     ncase = 50 if tier == "quick" else 400
-    archs = [["linear"], ["linear", "linear"], ["linear", "relu", "linear"], ["layernorm", "linear"], ["conv"], ["conv", "conv"], ["linear", "linear", "linear"]]
+    archs = [["linear"], ["linear", "linear"], ["linear", "relu", "linear"], ["layernorm", "linear"], ["conv"], ["conv", "conv"], ["linear", "linear", "linear"], ["shared"]]
     cases = []
     for i in range(ncase):
         nb = rng.randint(1, 6)
@@ -69,19 +69,31 @@ def main(tier):
         ck.case((c["seed"], c["dtype"], c["activations"], c["momentum"], tuple(c["layers"])), nontrivial=nb >= 2 and c["momentum"] != 0,
                 sample={"config": cfg, "first_batch_scales": r["snaps"][0]["scales"]} if len(ck.samples) < 3 else None)
         hist = {}  # (module, kind) -> list of (bits, dtype)
+        mixed = set()  # modules fed both quantized and float tensors: their input scale has no single defining history
         mm, me = b64_parts(c["momentum"])
         qmax = QMAX[c["activations"]]
         for bi, snap in enumerate(r["snaps"]):
+            last_in = {}
+            for ev in snap["log"]:
+                if ev["kind"] in ("in", "in_quantized"):
+                    last_in[ev["module"]] = ev["kind"]
             for ev in snap["log"]:
                 if ev["kind"] == "in_quantized":
+                    if last_in.get(ev["module"]) != "in_quantized":
+                        hist.pop((ev["module"], "in"), None)
+                        mixed.add(ev["module"])
+                        continue
                     # a module fed an already quantized tensor adopts that tensor's scale
                     got = snap["scales"].get(ev["module"])
                     if got and got["act"] is not None and got["in"] != ev["bits"]:
                         ck.violation("a module fed a quantized tensor did not adopt that tensor's scale as its input scale", {"case": cfg, "module": ev["module"], "batch": bi, "input_scale_bits": got["in"], "tensor_scale_bits": ev["bits"]})
                     hist.pop((ev["module"], "in"), None)
+                    mixed.add(ev["module"])
                     continue
                 hist.setdefault((ev["module"], ev["kind"]), []).append(ev)
             for (mod, kind), evs in hist.items():
+                if kind == "in" and mod in mixed:
+                    continue
                 got = snap["scales"].get(mod)
                 if got is None or not evs or evs[-1] is None:
                     continue
@@ -107,8 +119,8 @@ def main(tier):
                     if any(v == 1 for v in [ema_exact(news[:k], c["momentum"]) for k in range(1, len(news))]):
                         what += " (the running scale passed through the sentinel value 1 and was re-initialised)"
                     ck.violation(what, {"case": cfg, "module": mod, "hook": kind, "batch_scales": [float(v) for v in news], "observed": float(final), "expected": float(want), "history": c["contexts"]})
-                if bi == 0:
-                    # after a single batch no activation of that batch saturates
+                if bi == 0 and len(evs) == 1:
+                    # after a single batch (one call of the module) no activation of that batch saturates
                     am = Fraction(evs[0]["absmax"])
                     if final > 0 and am / final > qmax * (1 + 2 * u) * (1 + eta / final) * (1 + 2 * u):
                         ck.violation("after a single batch an activation of that batch saturates", {"case": cfg, "module": mod, "hook": kind, "absmax": float(am), "scale": float(final)})
